@@ -189,7 +189,14 @@ pub fn check_write(case: &WriteCase) -> CaseResult {
                 v.read(&path).map_err(|e| e.to_string())?.read_to_end(&mut b).map_err(|e| e.to_string())?;
                 Ok(b)
             };
-            let mut h = match if case.append { v.append(&path) } else { v.write(&path) } {
+            // (prelude / 4 selects how the path is spelled at open: the write-back must find the file it resolved to)
+            let spelled = match (case.prelude / 4) % 4 {
+                0 => path.clone(),
+                1 => format!("{}/./f", dir),
+                2 => format!("{}/zz/../f", dir),
+                _ => format!("{}//f/", dir),
+            };
+            let mut h = match if case.append { v.append(&spelled) } else { v.write(&spelled) } {
                 Ok(h) => h,
                 Err(e) => return Err(Failure::new(format!("{}-open|err|{}", mode, backend), format!("{}({}) = Err({})", mode, path, e))),
             };
@@ -269,7 +276,7 @@ fn write_case(stdfs: bool) -> impl Strategy<Value = WriteCase> {
         prop::collection::vec(prop_oneof![12 => prop::collection::vec(any::<u8>(), 0..24), 1 => (65_000usize..70_000).prop_map(|n| (0..n).map(|i| (i % 253) as u8).collect::<Vec<u8>>())], 0..6),
         prop::collection::vec(any::<bool>(), 6),
         0usize..7,
-        0u8..4,
+        0u8..16,
     )
         .prop_map(move |(append, existing, chunks, flush, d, prelude)| {
             let drop_after = d.min(chunks.len());
